@@ -136,8 +136,15 @@ def main():
             held = {"data": data, "params": e["params"], "functions": e["functions"], "targets": targets}
             before = digest_obj(held)
             exc, dig = "", ""
+            # target set T2 is computed with the documented list form [environment functions, user function]
+            farg = e["functions"]
+            if key["targets"] == "T2":
+                def verif_probe(alter: int) -> float:
+                    return alter * 2.0
+
+                farg = [e["functions"], verif_probe]
             try:
-                res = compute_taxes_and_transfers(data=data, params=e["params"], functions=e["functions"], targets=targets, rounding=bool(key["rounding"]))
+                res = compute_taxes_and_transfers(data=data, params=e["params"], functions=farg, targets=targets, rounding=bool(key["rounding"]))
                 dig = result_digest(res)
             except Exception as ex:  # noqa: BLE001
                 exc = type(ex).__name__
